@@ -224,6 +224,10 @@ def _eval_inner(u, cls, factors_kind):
         attrs["num_starts"] = fac["num_starts"]
     obj = u.obj(EV, cls, **attrs)
     policy = lambda t, **kw: {"actions": acts, "reward": rew}
+    from tvc.unit import on_reduction
+
+    captured = []
+    on_reduction(u, "", captured.append)
     a_out, r_out = u.run(EV, f"{cls}._inner", policy, td, selfobj=obj, record=False)
     b = u.idx((B,), "b")
     t = u.idx((T,), "t")
@@ -237,9 +241,19 @@ def _eval_inner(u, cls, factors_kind):
     js, j = z3.Int("jstar"), z3.Int("jany")
     same_tensor(u, "eval.actions.shape", a_out, (B, T), lambda bb, tt: a_out.at(bb, tt), tags=("C15",))
     same_tensor(u, "eval.rewards.shape", r_out, (B,), lambda bb: r_out.at(bb), tags=("C15",))
-    u.prove("eval.best-of-own-candidates", z3.Exists([js], AND(
-        js >= 0, js < total, r_out.at(b) == rew.at(js * B + b), a_out.at(b, t) == acts.at(js * B + b, t),
-        z3.ForAll([j], z3.Implies(z3.And(j >= 0, j < total), rew.at(j * B + b) <= r_out.at(b))))), tags=("C15", "C12"))
+    am = [r_ for r_ in captured if r_.kind == "argmax" and r_.outer_rank == 1]
+    if am:
+        # witness: the argmax over the candidates of instance b that the body itself computes (torch.max contract)
+        js = am[0].app((b,))
+        jj = u.idx((total,), "jj")
+        u.prove("eval.best.witness-in-range", AND(js >= 0, js < total), tags=("C15", "C12"))
+        u.prove("eval.best.reward-of-own-candidate", r_out.at(b) == rew.at(js * B + b), tags=("C15", "C12"))
+        u.prove("eval.best.actions-of-that-candidate", a_out.at(b, t) == acts.at(js * B + b, t), tags=("C15", "C12"))
+        u.prove("eval.best.dominates-own-candidates", rew.at(jj * B + b) <= r_out.at(b), tags=("C15", "C12"))
+    else:
+        u.prove("eval.best-of-own-candidates", z3.Exists([js], AND(
+            js >= 0, js < total, r_out.at(b) == rew.at(js * B + b), a_out.at(b, t) == acts.at(js * B + b, t),
+            z3.ForAll([j], z3.Implies(z3.And(j >= 0, j < total), rew.at(j * B + b) <= r_out.at(b))))), tags=("C15", "C12"))
     u.canary("eval.first-candidate", r_out.at(b) == rew.at(b), tags=("C15",))
 
 
